@@ -19,6 +19,6 @@ for id in $IDS; do
 done
 $B/llvm-profdata merge -sparse $C/prof/*.profraw -o $C/all.profdata
 $B/llvm-cov report $C/target/checked/epverif -instr-profile=$C/all.profdata --ignore-filename-regex='(registry|rustc|rustup|harness)' > $C/report.txt 2>/dev/null
-awk 'NR>2 {print $1, $8, $9, $10}' $C/report.txt | sed 's#^.*/etherparse/src/##' | column -t > "$ROOT/tools/coverage_quick.txt"
+awk 'NR>2 {print $1, $8, $9, $10}' $C/report.txt | sed 's#^.*/etherparse/src/##' > "$ROOT/tools/coverage_quick.txt"
 tail -1 "$ROOT/tools/coverage_quick.txt"
 [ "${KEEP:-0}" = "1" ] || rm -rf $C
